@@ -455,7 +455,24 @@ def apply(data, al):
             if i_ % 2 == 0:
                 parts[i_] = fix_code(seg, lmap)
             elif lmap:
-                parts[i_] = re.sub(r"(?<!\{)\{([A-Za-z_]\w*)((?::[^{}]*)?)\}", lambda m_: "{" + lmap.get(m_.group(1), m_.group(1)) + m_.group(2) + "}", seg)
+                out_, j_ = [], 0
+                while j_ < len(seg):
+                    if seg.startswith("{{", j_) or seg.startswith("}}", j_):
+                        out_.append(seg[j_:j_ + 2])
+                        j_ += 2
+                    elif seg[j_] == "{":
+                        e_ = seg.find("}", j_)
+                        if e_ < 0:
+                            out_.append(seg[j_:])
+                            break
+                        inner = seg[j_ + 1:e_]
+                        nm_, sep_, spec_ = inner.partition(":")
+                        out_.append("{" + lmap.get(nm_.strip(), nm_) + sep_ + spec_ + "}")
+                        j_ = e_ + 1
+                    else:
+                        out_.append(seg[j_])
+                        j_ += 1
+                parts[i_] = "".join(out_)
         return "".join(parts)
 
     def rewrite(root, lmap):
